@@ -6,6 +6,11 @@ ALL = ["C%02d" % i for i in range(1, 21)]
 
 # property -> dict(level, text, note, technique, engine, design_ref)
 CLAIMED = {
+  "C10": dict(level="model_checking", engine="E1-BFS",
+    text="Explicit-state model checking over edit histories: states are document texts, transitions are edits (every char-boundary position x deletions {0,1,2,node length} x a 9-string insertion alphabet incl. newline and multi-byte, plus AstGrep::replace from real matches) executed by the real AstGrep::edit/replace; breadth-first to depth 2 (thorough 3) from corpus snippets and generated error-free programs in 7 (thorough 14) languages; after every transition source() must equal the reference splice and, when the new text parses without errors, the incremental tree (kind, named, byte range, points of every node) must equal a fresh parse. ~2e6 transitions in the quick tier, all executed on the implementation.",
+    note="States with equal text are merged (sound while the invariant holds: the tree then is the fresh tree); deeper levels expand only error-free states below a length cap stated in the evidence; tree-sitter's own incremental parser is part of the subject.",
+    technique="explicit-state BFS over operation histories with an invariant checked in every state (stateless re-execution of histories on the real code)",
+    design_ref="DESIGN.md §3 C10"),
   "C04": dict(level="exploration", engine="E1",
     text="Bounded-exhaustive exploration of rule programs that share variable names: every operator (all/any/not, inside/has/precedes/follows x stopBy) applied to depth 2 (thorough: a slice of depth 3) over pattern atoms sharing $A/$B, plus matches-of-utility documents and constraints maps, on sources that contain every sequence (all permutations with repetition) of <= 3 (thorough 4) statements as siblings, arguments and nesting chains, so every 'failing candidate binds before the succeeding one' order exists. Verdict and bindings (by extent) on every node are compared with a reference evaluator that copies the environment on entry, so a failed alternative cannot leave a trace by construction. ~2.7e8 (document, node) evaluations in the quick tier.",
     note="Pattern atoms inside the reference are the real Pattern matcher on a cloned environment; constraints that re-bind a bound name or are keyed by a constraint-bound name are outside the alphabet (statement silent; order dependence there is C13's subject).",
